@@ -493,6 +493,8 @@ def ops_for(k, summ, cfg, rich, nobjs):
             ("insert", k, 1 if m >= 1 else 0, 0 if scale == 0 else k)]
     if scale == 0:
         ops.append(("scale", k, 1))
+    else:
+        ops.append(("insert", k, 1 if m >= 1 else 0, 0))      # insert the root (other scale) into a converted array
     ops.append(("write", k, 0))
     if rich:
         ops += [("deepcopy", k), ("get", k, ("slice", None, None, 2)), ("get", k, ("int", m)),
@@ -562,6 +564,11 @@ def random_op(rng, h, cfg):
         return ("subset", k, it)
     if c == "insert":
         cands = [i for i in range(n) if h.summary(i)[2] == scale and h.birth[i][5] == h.birth[k][5]]
+        if scale == 1:
+            # arrays of the root's scale: insert converts them
+            other = [i for i in range(n) if h.summary(i)[2] == 0 and not h.summary(i)[0]]
+            if other and rng.random() < 0.6:
+                cands = other
         return ("insert", k, rng.randrange(-m - 1, m + 2), rng.choice(cands))
     if c == "scale":
         return ("scale", k, rng.choice([scale, 1]) if scale == 0 else scale)
@@ -689,6 +696,8 @@ def eqhash_cases(ctx, rng):
     n_hist = 12 if ctx.quick() else 60
     for hi in range(n_hist):
         cfg = Cfg(rng.choice([1, 2, 3, 4]), rng.choice(["jd", "mjd", "gps_ws"]))
+        if hi < 3:
+            cfg = Cfg(*[(3, "jd"), (2, "mjd"), (3, "gps_ws")][hi])      # always present, whatever the seed
         tok = Tok()
         h = History(cfg, tok)
         pool = [h.objs[0]]
@@ -718,6 +727,34 @@ def eqhash_cases(ctx, rng):
             srcs.append("<root shifted by 1/64 day (gps_ws: 900 s)>")
         except Exception:
             pass
+        # nearly equal arrays: scale round trips (last bits of jd2 may change) and copies whose jd2 is moved by one
+        # ulp / 1e-16 / 1e-15 day.  __eq__ must be exact equality of the jd pairs (eq => equal hash)
+        clear_caches()
+        r0 = cfg.root()
+        trips = ([("tai", cfg.scales[0]), ("gps", cfg.scales[0]), ("tt", "tai", cfg.scales[0])] if cfg.scales[0] == "utc"
+                 else [("utc", "gps"), ("tai", "gps"), ("tt", "tai", "gps")])
+        for trip in trips:
+            try:
+                x = r0
+                for sc in trip:
+                    x = getattr(x, sc)
+                if x.fmt != r0.fmt:
+                    x = type(x).from_jds(x.jd1, x.jd2, r0.fmt)
+                pool.append(x)
+                srcs.append("root()." + ".".join(trip))
+                if cfg.n > 1:
+                    pool.append(x[1])
+                    srcs.append("root()." + ".".join(trip) + "[1]")
+            except Exception:
+                pass
+        for label, bump in (("1 ulp", None), ("1e-16", 1e-16), ("1e-15", 1e-15), ("-3e-16", -3e-16)):
+            try:
+                jd2 = np.nextafter(r0.jd2, 1.0) if bump is None else r0.jd2 + bump
+                pool.append(type(r0).from_jds(r0.jd1, jd2, r0.fmt))
+                srcs.append(f"<root with jd2 moved by {label}>")
+            except Exception:
+                pass
+        clear_caches()
         obs = []
         for o in pool:
             try:
@@ -740,10 +777,90 @@ def eqhash_cases(ctx, rng):
                     hq = hash(pool[i]) == hash(pool[j])
                 except Exception:
                     hq = False
+                try:
+                    if (i != j and np.shape(pool[i].jd2) == np.shape(pool[j].jd2) and pool[i].scale == pool[j].scale
+                            and np.all(pool[i].jd1 == pool[j].jd1)):
+                        d = np.max(np.abs(np.asarray(pool[i].jd2) - np.asarray(pool[j].jd2))) if np.size(pool[i].jd2) else 1.0
+                        if 0 < d < 1e-14:
+                            ctx.count("eqhash:nearly_equal_pairs")
+                except Exception:
+                    pass
                 cases.append(f"({oobs_term(obs[i])}, {oobs_term(obs[j])}, {eo}, {emit.b(hq)})")
                 metas.append(dict(kind="eq_hash", root=cfg.how(), a=srcs[i], b=srcs[j], eq=["False", "True", "raised"][eo],
                                   hashes_equal=bool(hq)))
                 ctx.case(("EQ", cfg.key(), srcs[i], srcs[j]), nontrivial=(i != j))
+    return cases, metas
+
+
+class AnyScale:
+    """observation context for the insert oracle: four scales, no root"""
+    scales = ("utc", "tai", "gps", "tt")
+
+
+def insert_cases(ctx):
+    """TimeArray.insert(a, pos, b, {}) for every pair of scales and formats (b converted by insert itself).  The
+    expected result is built in Coq from a and from b brought to a's scale/format by a *fresh* conversion."""
+    from midgard.data.time import Time
+    from midgard.data._time import TimeArray
+    cases, metas = [], []
+    cfg = AnyScale()
+
+    def make(scale, fmt, n, start):
+        mjd = start + np.arange(n) * 1.25 + 0.125
+        return Time(mjd if fmt == "mjd" else mjd + 2_400_000.5, scale=scale, fmt=fmt)
+
+    sizes = ((1, 1), (3, 2), (4, 1)) if ctx.quick() else ((1, 1), (3, 2), (4, 1), (6, 3), (2, 6))
+    for sa in cfg.scales:
+        for sb in cfg.scales:
+            for fa in ("jd", "mjd"):
+                for fb in ("jd", "mjd"):
+                    for na, nb in sizes:
+                        for pos in sorted({0, na // 2, na, -1, na + 1}):
+                            for b_elem in ((False, True) if (nb == 1 and pos == 0) else (False,)):
+                                tok = Tok()
+                                how = (f"a = Time(<mjd 58000.125 + 1.25 k, k < {na}> as {fa}, scale={sa!r}, fmt={fa!r}); "
+                                       f"b = Time(<mjd 58100.125 + 1.25 k, k < {nb}> as {fb}, scale={sb!r}, fmt={fb!r})"
+                                       + ("[0]" if b_elem else "") + f"; TimeArray.insert(a, {pos}, b, {{}})")
+                                try:
+                                    clear_caches()
+                                    a = make(sa, fa, na, 58000)
+                                    b = make(sb, fb, nb, 58100)
+                                    if b_elem:
+                                        b = b[0]
+                                    oa = observe(a, cfg, tok)
+                                    # b in a's scale and format, by a fresh conversion on an equal array
+                                    b2 = make(sb, fb, nb, 58100)
+                                    if b_elem:
+                                        b2 = b2[0]
+                                    bc = b2 if sa == sb else getattr(b2, sa)
+                                    if bc.fmt != fa:
+                                        bc = type(bc).from_jds(bc.jd1, bc.jd2, fa)
+                                    ob = observe(bc, cfg, tok)
+                                    clear_caches()
+                                    try:
+                                        new = TimeArray.insert(a, pos, b, {})
+                                    except Exception:
+                                        res = ("err",)
+                                    else:
+                                        res = ("obj", observe(new, cfg, tok))
+                                except Mixed:
+                                    ctx.count("insert:outside-model:mixed")
+                                    continue
+                                except Exception as e:
+                                    ctx.count(f"insert:outside-model:{type(e).__name__}")
+                                    metas.append(dict(kind="insert", how=how, error=f"{type(e).__name__}: {e}"))
+                                    cases.append(None)
+                                    continue
+                                cases.append(f"({oobs_term(oa)}, {oobs_term(ob)}, {emit.z(pos)}, {obsres_term(res)})")
+                                def show(o):
+                                    return dict(val=[[tok.vals[t - 1] for t in r] for r in o[1]],
+                                                jd1=[tok.vals[t - 1] for t in (o[2][1] if o[2][0] == "A" else (o[2][1],))],
+                                                jd2=[tok.vals[t - 1] for t in (o[3][1] if o[3][0] == "A" else (o[3][1],))])
+                                metas.append(dict(kind="insert", how=how, a=show(oa), b_in_scale_and_format_of_a=show(ob),
+                                                  observed=("error" if res[0] == "err" else show(res[1]))))
+                                ctx.case(("INS", sa, sb, fa, fb, na, nb, pos, b_elem), nontrivial=True)
+                                ctx.count(f"insert:{'same' if sa == sb else 'other'}-scale:{'same' if fa == fb else 'other'}-fmt")
+    clear_caches()
     return cases, metas
 
 
@@ -1007,16 +1124,28 @@ def run(ctx):
     ve = emit.flatten_verdicts(ctx.coq_cases(emit.shard_terms("check_eqhash", ec, 400), REQ), len(ec))
     wc, wm = write_cases(ctx)
     vw = emit.flatten_verdicts(ctx.coq_cases(emit.shard_terms("check_write", wc, 400), REQ), len(wc))
-    for name, flat, meta, fid in (("eqhash", ve, em, "c04_eq_broadcast"), ("write", vw, wm, "c04_delattr_allowed")):
+    ic, im = insert_cases(ctx)
+    for rep in [m for c, m in zip(ic, im) if c is None]:
+        ctx.violation(rep, what="insert oracle: arrays could not be built / observed: " + rep["error"][:150])
+    im = [m for c, m in zip(ic, im) if c is not None]
+    ic = [c for c in ic if c is not None]
+    vi = emit.flatten_verdicts(ctx.coq_cases(emit.shard_terms("check_insert", ic, 200), REQ), len(ic))
+    for name, flat, meta, fid in (("eqhash", ve, em, "c04_eq_broadcast"), ("write", vw, wm, "c04_delattr_allowed"),
+                                  ("insert", vi, im, None)):
         if flat is None:
             ctx.violation({"broken": f"{name} shard did not evaluate", "errors": [e[1][-1500:] for e in ctx.last_coq_errors[:2]]},
                           what="correspondence (model evaluation) failed", found=False)
             continue
+        n_rep = 0
         for vd, rep in zip(flat, meta):
             ctx.count(f"{name}:verdict:{vd}")
             if vd == 0:
                 continue
-            if vd == 2:
+            if not (vd == 2 and fid):
+                n_rep += 1
+                if n_rep > 10:          # the first ten replay files are enough, the rest is in the histogram
+                    continue
+            if vd == 2 and fid:
                 ctx.count(f"quirk:{fid}")
                 ctx.finding(fid, WHAT[fid], rep)
             else:
@@ -1044,7 +1173,9 @@ def run(ctx):
               "list/slice, own scale, self-insert, 4 more write forms); arrays of 1..6 epochs, jd and gps_ws; random histories "
               "up to 30 steps over all objects with random indices incl. out-of-range/empty, jd/mjd/gps_ws; every node compares "
               "val, jd1, jd2, len, .mjd, fmt, scale of the object obtained + bit-identity of all earlier objects. "
-              "distinct_nontrivial = distinct (config, history) of length >= 2 plus eq/hash pairs and write attempts"),
+              "eq/hash pairs include scale round trips (t.tai.utc, t.gps.utc, t.tt.tai.utc) and copies with jd2 moved by "
+              "1 ulp / 1e-16 / 1e-15 day; insert oracle: all pairs of {utc,tai,gps,tt} x {jd,mjd} for target and inserted array. "
+              "distinct_nontrivial = distinct (config, history) of length >= 2 plus eq/hash pairs, inserts and write attempts"),
     )
 
 
